@@ -90,6 +90,11 @@ class Report:
 
     def unmodelled(self, rule: str, fi, node, reason: str):
         """Cannot follow the code here: exit 2, never a violation."""
+        if rule in getattr(self, "soft_rules", ()):
+            # a shape reader gave up on a construct whose behaviour a semantic rule of the same check decided: recorded, not
+            # an analysis failure
+            self.notes.append(f"{rule} (shape not read, decided semantically): {reason}"[:300])
+            return
         self.errors.append(f"{rule} {_where(fi, node)} "
                            f"{fi.qualname if isinstance(fi, FunctionInfo) else (fi or '')}: {reason}")
 
